@@ -239,10 +239,10 @@ int cmd_refs(const Args&) {
 struct C10LegacyWorld: World {
   typedef talloc<uint64_t> A; typedef datasketches::update_theta_sketch_alloc<A> U; typedef datasketches::compact_theta_sketch_alloc<A> C; typedef datasketches::wrapped_compact_theta_sketch_alloc<A> W;
   const char* name() const override { return "c10ld"; }
-  const char* step_name(int k) const override { return k == 1 ? "legacy_v1" : k == 2 ? "legacy_v2" : k == 3 ? "hash_lengths" : "step"; }
+  const char* step_name(int k) const override { return k == 1 ? "legacy_v1" : k == 2 ? "legacy_v2" : k == 3 ? "hash_lengths" : k == 4 ? "legacy_tuple" : "step"; }
   std::string family_of(const Plan&) const override { return "theta-legacy"; }
   Plan generate(u64 run_seed, int) override { Plan p; p.run_seed = run_seed; Rng r(run_seed, "plan"); static const i64 cnt[] = { 0, 1, 2, 5, 31, 32, 33, 100, 400, 2000 }; p.cfg = { r.range(5, 8), static_cast<i64>(r.below(3)), r.pick(cnt), static_cast<i64>(r.below(100000)), static_cast<i64>(r.below(4)) };
-    for (int k = 1; k <= 3; k++) { Step s; s.kind = k; s.a = static_cast<i64>(r.below(4)); s.b = static_cast<i64>(r.below(1000)); p.steps.push_back(s); } return p; }
+    for (int k = 1; k <= 4; k++) { Step s; s.kind = k; s.a = static_cast<i64>(r.below(4)); s.b = static_cast<i64>(r.below(1000)); p.steps.push_back(s); } return p; }
   static void put32(Bytes& b, size_t off, uint32_t v) { std::memcpy(b.data() + off, &v, 4); } static void put64(Bytes& b, size_t off, u64 v) { std::memcpy(b.data() + off, &v, 8); }
   void check_image(Ctx& ctx, const Bytes& img, u64 seed, u64 theta, const std::vector<u64>& entries, bool empty, const char* which) {
     const std::string fpfx = std::string("C10|theta|legacy-") + which + "|";
@@ -288,6 +288,22 @@ struct C10LegacyWorld: World {
         std::set<u64> got; for (auto it = h.begin(); it != h.end(); ++it) got.insert(*it);
         if (got != want) ctx.fail("C10|theta|hash-of-some-input-length-differs-from-published-murmur3", std::to_string(got.size()) + " vs " + std::to_string(want.size()) + " distinct hashes");
         ctx.check(); ctx.probe("hash_lengths_1_to_80");
+      }
+      else if (s.kind == 4) {   // Tuple images with the legacy ids (serial version 1, sketch type 5; the layout is the current one): both readers must accept them and recover the content
+        typedef talloc<double> DA; typedef datasketches::update_tuple_sketch<double, double, datasketches::default_tuple_update_policy<double, double>, DA> TU; typedef datasketches::compact_tuple_sketch<double, DA> TC;
+        TU tu = typename TU::builder(datasketches::default_tuple_update_policy<double, double>(), DA(1)).set_lg_k(static_cast<uint8_t>(p.cfg[0])).set_p(ps[p.cfg[4] & 3]).set_seed(seed).build();
+        for (i64 j = 0; j < p.cfg[2]; j++) tu.update(static_cast<int64_t>(p.cfg[3] + j), 0.5 * static_cast<double>(1 + j % 5));
+        TC orig = tu.compact((s.a & 1) != 0); auto bytes = orig.serialize(0, datasketches::serde<double>()); Bytes img(bytes.begin(), bytes.end());
+        if (img.size() >= 8) { img[1] = 1; img[3] = 5; }
+        auto content = [](const TC& c) { std::vector<std::pair<u64, double>> e; for (auto it = c.begin(); it != c.end(); ++it) e.push_back(std::make_pair(it->first, it->second)); std::sort(e.begin(), e.end());
+          std::string o = std::to_string(c.get_theta64()) + "/" + std::to_string(c.is_empty()) + ":"; for (auto& kv : e) o += std::to_string(kv.first) + "*" + hexd(kv.second) + ","; return o; };
+        const std::string want = content(orig);
+        try { ExactBuf eb(img.data(), img.size()); TC a = TC::deserialize(eb.p, eb.n, seed, datasketches::serde<double>(), DA(1)); if (content(a) != want) ctx.fail("C10|tuple|legacy-ids|bytes-reader-reads-legacy-image-differently", ""); }
+        catch (const std::invalid_argument& e) { ctx.fail("C10|tuple|legacy-ids|bytes-reader-rejects-legacy-image", e.what()); }
+        try { SimFileBuf fb(img.data(), img.size(), 0, 7, static_cast<size_t>(-1), static_cast<size_t>(-1)); std::istream is(&fb); TC b = TC::deserialize(is, seed, datasketches::serde<double>(), DA(1)); if (content(b) != want) ctx.fail("C10|tuple|legacy-ids|stream-reader-reads-legacy-image-differently", "");
+          ctx.require(fb.consumed() == img.size(), "C10|tuple|legacy-ids|stream-reader-consumed-wrong-length", ""); }
+        catch (const std::invalid_argument& e) { ctx.fail("C10|tuple|legacy-ids|stream-reader-rejects-legacy-image", e.what()); }
+        ctx.check(); ctx.fault("version_skew"); ctx.probe("legacy_tuple_ids"); ctx.nontrivial = true;
       }
       ctx.t(static_cast<u64>(entries.size())); ctx.t(theta);
     }
